@@ -288,6 +288,9 @@ func GenMuxOps(r *core.PRNG, n int, period int, rich, invalid, allowDisc, big bo
 				af = op.AF.Size()
 			}
 			op.Len = genLen(r, ps.HeaderSize(), af, big && r.Chance(1, 6))
+			if invalid && r.Chance(1, 40) {
+				op.Len = 0 // a unit without payload bytes (what, if anything, is written is open; the packet rules are not)
+			}
 			ops = append(ops, op)
 			if pcrValid() {
 				tablesEmitted() // conservative: may or may not have been due
@@ -429,7 +432,7 @@ func (muxHist) Generate(r *core.PRNG, tier string, idx int64) any {
 // churnEvery: one run in churnEvery is a long allocator churn (about 8 000 add/tables/remove
 // cycles, enough to take the automatic PID allocator once around the whole 13-bit PID space and
 // into the streams it left behind on the first pass).
-const churnEvery = 3001
+const churnEvery = 1201
 
 func genChurn(r *core.PRNG) *MuxHistScenario {
 	sc := &MuxHistScenario{Period: r.Range(1, 5)}
@@ -444,6 +447,12 @@ func genChurn(r *core.PRNG) *MuxHistScenario {
 	n := r.Range(7700, 8600)
 	if r.Chance(1, 4) {
 		n = r.Range(15800, 16400) // twice around
+	}
+	if r.Chance(2, 5) {
+		// the Muxer is empty at every automatic add: the companion stream that makes WriteTables
+		// possible is added after it and removed again
+		sc.Ops = []MuxOp{{Op: "churn", H: -1, Type: 0x0f, N: n, Keep: 0, PID: x}}
+		return sc
 	}
 	sc.Ops = append(sc.Ops, MuxOp{Op: "churn", H: -1, Type: 0x0f, N: n, Keep: r.Range(0, 6)})
 	sc.Ops = append(sc.Ops, MuxOp{Op: "data", H: 0, PID: x, PES: &PESSpec{StreamID: 0xe0}, Len: r.Range(1, 400), Tag: 1})
